@@ -177,7 +177,10 @@ def rdStep (m : Mode) (st : RdSt) (a : SAct) : RdSt :=
 def runRd (m : Mode) (flen : Nat) (phases : List Phase) (sched : List SAct) : String :=
   let st0 : RdSt := { d := { ctl := { todo := phases, decoding := none, idx := 0 }, buffers := { fileLen := flen } } }
   let st := sched.foldl (rdStep m) st0
-  if st.out.isEmpty then "-" else ",".intercalate st.out
+  -- `buffered_bytes()` at the end (a finished decoder holds nothing)
+  let bb := if st.d.finished then 0 else st.d.buffers.bufferedBytes
+  let evs := if st.out.isEmpty then "-" else ",".intercalate st.out
+  s!"{evs} bb={bb}"
 
 def showPoll (r : PollRes (Nat × Nat)) : String :=
   match r with
